@@ -1884,6 +1884,8 @@ class Evaluator:
                 if short == 'int' and not isinstance(a[0], (sp.floor, sp.ceiling, sp.Integer)):
                     return sp.Function('int')(a[0])
                 return a[0]
+            if short == 'atleast_1d' and len(a) == 1 and isinstance(a[0], Tup) and a[0].items:
+                return a[0]            # already one-dimensional
             if short == 'pi':
                 return sp.pi
             if short in ('deg2rad', 'radians') and numeric and len(a) == 1:
